@@ -31,7 +31,8 @@ func mk(eps []ep) ([]*domain.Endpoint, map[*domain.Endpoint]int) {
 	out := make([]*domain.Endpoint, len(eps))
 	ids := map[*domain.Endpoint]int{}
 	for i, e := range eps {
-		u := fmt.Sprintf("http://h%d:1", e.ID)
+		// URL spellings a configuration may use: bare authority, trailing slash, base path with and without trailing slash
+		u := fmt.Sprintf([]string{"http://h%d:1", "http://h%d:1/", "http://h%d:1/engines/llama.cpp/", "http://h%d:1/v1"}[(e.ID+len(eps))%4], e.ID)
 		out[i] = &domain.Endpoint{Name: fmt.Sprintf("e%d", e.ID), URLString: u, Priority: e.Prio, Status: domain.EndpointStatus(e.Status)}
 		ids[out[i]] = e.ID
 	}
@@ -139,15 +140,24 @@ func caseLC(c *vlib.Cases, eps []ep, ops []lcOp) {
 	}
 	type obs struct {
 		Sel   int      `json:"sel"`
-		Conns [][2]int `json:"conns"`
+		Conns [][2]int `json:"conns"` // gauges as the collector reports them under the endpoint's URLString
+		Truth [][2]int `json:"truth"` // in-flight counts as the harness caused them (Increment minus Decrement, never below 0)
+	}
+	truth := map[int]int{}
+	for _, e := range eps {
+		truth[e.ID] = e.Conns
 	}
 	var out []obs
 	for _, o := range ops {
 		switch o.Op {
 		case "inc":
 			sel.IncrementConnections(byID[o.ID])
+			truth[o.ID]++
 		case "dec":
 			sel.DecrementConnections(byID[o.ID])
+			if truth[o.ID] > 0 {
+				truth[o.ID]--
+			}
 		case "sel":
 			e, err := sel.Select(context.Background(), l)
 			st := col.GetConnectionStats()
@@ -155,7 +165,11 @@ func caseLC(c *vlib.Cases, eps []ep, ops []lcOp) {
 			for _, x := range eps {
 				cs = append(cs, [2]int{x.ID, int(st[byID[x.ID].URLString])})
 			}
-			out = append(out, obs{Sel: idOf(ids, e, err), Conns: cs})
+			var ts [][2]int
+			for _, x := range eps {
+				ts = append(ts, [2]int{x.ID, truth[x.ID]})
+			}
+			out = append(out, obs{Sel: idOf(ids, e, err), Conns: cs, Truth: ts})
 		}
 	}
 	c.Emit(map[string]any{"kind": "lc", "eps": eps, "ops": ops, "impl": map[string]any{"obs": out}})
